@@ -255,7 +255,9 @@ def run_native(scr, unit, tier, seed):
     env["VERIF_TIER"] = tier
     # optimised build, but with the arithmetic-overflow and debug assertions of a debug build
     env["CARGO_PROFILE_RELEASE_OVERFLOW_CHECKS"] = "true"
-    env["CARGO_PROFILE_RELEASE_DEBUG_ASSERTIONS"] = "true"
+    # (a unit may opt out of debug assertions: the prover's debug-only degree validation rejects traces with
+    # periodic columns, which C17's stand-in needs; overflow checks stay on)
+    env["CARGO_PROFILE_RELEASE_DEBUG_ASSERTIONS"] = "true" if unit.get("debug_assertions", True) else "false"
     env["CARGO_PROFILE_RELEASE_LTO"] = "off"
     env["CARGO_PROFILE_RELEASE_CODEGEN_UNITS"] = "16"
     t0 = time.time()
